@@ -171,7 +171,7 @@ func (t *TypeSpec) hasKind(seen map[string]bool, kinds ...string) bool {
 
 func typeWidth(name string) int {
 	switch name {
-	case "int8", "uint8", "byte":
+	case "int8", "uint8", "byte", "ZzU8":
 		return 8
 	case "int16", "uint16":
 		return 16
